@@ -497,3 +497,216 @@ def alarm_getattr_method(src):
 
 def alarm_getattr_computed(src):
     getattr(Writer(), src.name)(src)
+
+
+# ---- more aliasing through objects --------------------------------------------------------------------------------------
+class Bag:
+    shared = None
+
+    def __init__(self):
+        self.lst = []
+
+
+def alarm_augassign_attribute_list(src):
+    b = Bag()
+    b.lst = src.glyphs
+    b.lst += [1]  # in-place extension of the SOURCE list
+
+
+def alarm_augassign_subscript_list(src):
+    d = {"a": src.glyphs}
+    d["a"] += [1]
+
+
+def alarm_class_attribute_store_then_instance_read(src):
+    Bag.shared = src
+    Bag().shared.width = 1
+
+
+def alarm_unbound_method_call(src):
+    Writer2.apply(Writer2(), src)
+
+
+class Writer2:
+    def apply(self, x):
+        x.width = 1
+
+    @staticmethod
+    def sapply(x):
+        x.width = 1
+
+
+def alarm_staticmethod_via_instance(src):
+    Writer2().sapply(src)
+
+
+def alarm_sort_key_callback(src):
+    xs = [src, src]
+
+    def key(g):
+        g.width = 1
+        return 0
+
+    xs.sort(key=key)
+
+
+def alarm_lambda_default(src):
+    f = lambda g=src: g.anchors.clear()  # noqa: E731
+    f()
+
+
+def alarm_for_target_attribute(src):
+    b = Bag()
+    for b.cur in [src]:
+        pass
+    b.cur.width = 1
+
+
+def alarm_unpack_into_attribute(src):
+    b = Bag()
+    b.one, two = src, 1
+    b.one.width = 1
+
+
+def alarm_with_target_attribute(src):
+    b = Bag()
+    with src.open() as b.f:
+        pass
+    b.f.close()
+
+
+def alarm_exception_payload(src):
+    try:
+        raise ValueError(src)
+    except ValueError as e:
+        e.args[0].width = 1
+
+
+class CarryError(Exception):
+    def __init__(self, obj):
+        super().__init__("x")
+        self.obj = obj
+
+
+def alarm_exception_attribute(src):
+    try:
+        raise CarryError(src)
+    except CarryError as e:
+        e.obj.width = 1
+
+
+def _raiser(x):
+    raise CarryError(x)
+
+
+def alarm_exception_across_calls(src):
+    try:
+        _raiser(src)
+    except CarryError as e:
+        e.obj.width = 1
+
+
+class DictSub(dict):
+    def __init__(self, pairs):
+        super().__init__(pairs)
+        self.extra = None
+
+
+def alarm_dict_subclass_super_init(src):
+    d = DictSub((g.name, g) for g in src)
+    d["a"].width = 1
+
+
+class DictSub2(dict):
+    pass
+
+
+def alarm_dict_subclass_plain(src):
+    d = DictSub2((g.name, g) for g in src)
+    for g in d.values():
+        g.width = 1
+
+
+def ok_dict_subclass_copy(src):
+    d = DictSub2((g.name, deepcopy(g)) for g in src)
+    for g in d.values():
+        g.width = 1
+
+
+class Acc2:
+    def __init__(self):
+        self.items = []
+
+    @property
+    def refill(self):
+        self.items.append(self.src)
+        return 1
+
+
+def alarm_strong_field_read_property_between(src):
+    a = Acc2()
+    a.src = src
+    a.items = []
+    a.refill  # a property read runs analysed code that refills the field
+    for i in a.items:
+        i.width = 1
+
+
+def alarm_generator_send(src):
+    def gen():
+        x = yield 1
+        x.width = 1
+
+    g = gen()
+    next(g)
+    g.send(src)
+
+
+# ---- namedtuples ---------------------------------------------------------------------------------------------------------
+from collections import namedtuple  # noqa: E402
+from typing import NamedTuple  # noqa: E402
+
+Pair = namedtuple("Pair", "first second")
+
+
+class TPair(NamedTuple):
+    first: object
+    second: object = None
+
+
+def alarm_namedtuple_field(src):
+    p = Pair(deepcopy(src), src)
+    p.second.width = 1
+
+
+def ok_namedtuple_field(src):
+    p = Pair(deepcopy(src), src)
+    p.first.width = 1
+
+
+def alarm_namedtuple_keyword(src):
+    p = Pair(first=1, second=src)
+    p.second.width = 1
+
+
+def alarm_namedtuple_index(src):
+    p = Pair(1, src)
+    p[1].width = 1
+
+
+def alarm_namedtuple_unpack(src):
+    a, b = Pair(1, src)
+    b.width = 1
+
+
+def alarm_typing_namedtuple(src):
+    p = TPair(1, src)
+    p.second.width = 1
+
+
+def galarm_none_for_namedtuple_read(src):
+    # (sanity) reading a field of a named tuple is no write to module state; appending to a module list is
+    _LOG.append(Pair(1, 2).first)
+
+
+_LOG = []
